@@ -6,6 +6,10 @@ import (
 	"math/rand"
 	"net"
 	"net/http"
+	"net/http/httptrace"
+	"os/exec"
+	"regexp"
+	"strconv"
 	"strings"
 	"sync"
 	"sync/atomic"
@@ -78,6 +82,14 @@ func c19Transport(c *ctx) {
 	} else {
 		c.R.Note("blackhole listener not available in this environment: the dial timeout sub-check is skipped")
 	}
+	kaLn, err := net.Listen("tcp", "127.0.0.1:0")
+	if err != nil {
+		c.R.Inconcl("listen: %v", err)
+		return
+	}
+	defer kaLn.Close()
+	go http.Serve(kaLn, http.HandlerFunc(func(w http.ResponseWriter, r *http.Request) { w.WriteHeader(204) }))
+	kaSrv := kaLn.Addr().String()
 	dur := func() time.Duration {
 		return choose(r, []time.Duration{0, 50 * time.Millisecond, 123 * time.Millisecond, time.Second, 1500 * time.Millisecond, 30 * time.Second, time.Minute, 17 * time.Hour})
 	}
@@ -120,6 +132,30 @@ func c19Transport(c *ctx) {
 		if c.R.WantSample() {
 			c.R.Sample(in)
 		}
+		// keep-alive, behaviourally: the socket a real round trip used must carry the configured idle time
+		if i%10 == 0 {
+			ka := choose(r, []time.Duration{time.Second, 7 * time.Second, 30 * time.Second, 90 * time.Second, 1500 * time.Millisecond, 17 * time.Minute})
+			cfg.Proxy.KeepAliveTimeout = ka
+			cfg.Proxy.DialTimeout = choose(r, []time.Duration{2 * time.Second, 3 * time.Second, 5 * time.Second}) // never equal to ka
+			transport.SetConfig(cfg)
+			for name, tr := range map[string]*http.Transport{"default": transport.NewTransport(nil), "per-route(host=)": func() *http.Transport {
+				t2, _ := newTable(`route add svc hostroute.test/ https://10.1.1.1:443/ opts "host=inner.test proto=https"`)
+				return t2["hostroute.test"][0].Targets[0].Transport
+			}()} {
+				on, idle, err := c19KeepAliveOf(tr, kaSrv)
+				c.R.Eval(1)
+				c.R.Count("keepalive_observations", 1)
+				if err != nil {
+					c.R.Note("keep-alive observation failed: %v", err)
+					continue
+				}
+				want := int((ka + time.Second - 1) / time.Second)
+				if !on || idle != want {
+					c.R.Violate("c19:keepalive-not-applied:"+name, fmt.Sprintf("%s transport, configured keep-alive %s: the upstream socket has SO_KEEPALIVE=%v TCP_KEEPIDLE=%ds, want on and %ds", name, ka, on, idle, want), in)
+					return
+				}
+			}
+		}
 		// dial timeout, behaviourally (a few per run: each costs its timeout)
 		if haveBH && i%40 == 0 {
 			d := choose(r, []time.Duration{150 * time.Millisecond, 300 * time.Millisecond, 500 * time.Millisecond})
@@ -154,6 +190,37 @@ func c19Transport(c *ctx) {
 	}
 }
 
+// c19KeepAliveOf performs one plain-HTTP round trip through tr and reads the keep-alive settings back from the socket it used.
+func c19KeepAliveOf(tr *http.Transport, addr string) (on bool, idleSec int, err error) {
+	var used net.Conn
+	req, _ := http.NewRequest("GET", "http://"+addr+"/", nil)
+	req = req.WithContext(httptrace.WithClientTrace(req.Context(), &httptrace.ClientTrace{GotConn: func(i httptrace.GotConnInfo) { used = i.Conn }}))
+	resp, err := tr.RoundTrip(req)
+	if err != nil {
+		return false, 0, err
+	}
+	defer tr.CloseIdleConnections()
+	defer resp.Body.Close()
+	tc, ok := used.(*net.TCPConn)
+	if !ok {
+		return false, 0, fmt.Errorf("connection is a %T", used)
+	}
+	rc, err := tc.SyscallConn()
+	if err != nil {
+		return false, 0, err
+	}
+	var e1, e2 error
+	var v1, v2 int
+	rc.Control(func(fd uintptr) {
+		v1, e1 = syscall.GetsockoptInt(int(fd), syscall.SOL_SOCKET, syscall.SO_KEEPALIVE)
+		v2, e2 = syscall.GetsockoptInt(int(fd), syscall.IPPROTO_TCP, syscall.TCP_KEEPIDLE)
+	})
+	if e1 != nil {
+		return false, 0, e1
+	}
+	return v1 != 0, v2, e2
+}
+
 // ---------- process level ----------
 
 func c19Timeouts(c *ctx) {
@@ -162,10 +229,11 @@ func c19Timeouts(c *ctx) {
 		T       time.Duration
 		MaxConn int
 		Idle    time.Duration
+		KA      time.Duration
 	}
-	cfgs := []cfgT{{400 * time.Millisecond, 3, 2 * time.Second}}
+	cfgs := []cfgT{{400 * time.Millisecond, 3, 2 * time.Second, 47 * time.Second}}
 	if c.thorough() {
-		cfgs = append(cfgs, cfgT{time.Second, 5, 1 * time.Second}, cfgT{250 * time.Millisecond, 2, 3 * time.Second})
+		cfgs = append(cfgs, cfgT{time.Second, 5, 1 * time.Second, 29 * time.Second}, cfgT{250 * time.Millisecond, 2, 3 * time.Second, 38 * time.Second})
 	}
 	var wg sync.WaitGroup
 	for ci, cf := range cfgs {
@@ -201,7 +269,7 @@ func c19Timeouts(c *ctx) {
 			// the routes are in the Consul KV store before fabio starts: they are part of the first routing table, and no
 			// barrier (which would rebuild the table) is issued afterwards
 			rg, err := newRigWith(c, fmt.Sprintf("c19-%d", ci), []string{"-proxy.addr", proxyAddr, "-proxy.responseheadertimeout", cf.T.String(),
-				"-proxy.maxconn", fmt.Sprint(cf.MaxConn), "-proxy.idleconntimeout", cf.Idle.String(), "-proxy.dialtimeout", "700ms", "-log.level", "WARN"}, manual)
+				"-proxy.maxconn", fmt.Sprint(cf.MaxConn), "-proxy.idleconntimeout", cf.Idle.String(), "-proxy.keepalivetimeout", cf.KA.String(), "-proxy.dialtimeout", "700ms", "-log.level", "WARN"}, manual)
 			if err != nil {
 				c.R.Inconcl("cannot start fabio: %v", err)
 				return
@@ -326,6 +394,32 @@ func c19Timeouts(c *ctx) {
 			c.R.MaxCounter("idle_conns_after_burst", int64(open))
 			if open > cf.MaxConn+base {
 				c.R.Violate("c19:idle-connections-exceed-maxconn", fmt.Sprintf("%d upstream connections still open 400ms after a burst of 10 (maxconn %d, %d open before)", open, cf.MaxConn, base), nil)
+			}
+			// keep-alive: the kernel's view (ss) of fabio's idle connections to the upstream shows the keep-alive timer
+			// counting down from the configured period (Go's default would be 15s)
+			if open > 0 {
+				_, port, _ := net.SplitHostPort(plainUp.Addr())
+				out, err := exec.Command("ss", "-tnoH", "state", "established", "( dport = :"+port+" )").CombinedOutput()
+				timers := regexp.MustCompile(`timer:\(keepalive,(\d+)sec,`).FindAllStringSubmatch(string(out), -1)
+				switch {
+				case err != nil:
+					c.R.Note("ss not usable (%v): keep-alive through the binary not observed", err)
+				case len(timers) == 0:
+					c.R.Note("ss shows no keep-alive timer on %d idle upstream connections: %.300q", open, out)
+					if strings.Contains(string(out), "127.0.0.1:"+port) {
+						c.R.Violate("c19:keepalive-not-applied:binary", fmt.Sprintf("-proxy.keepalivetimeout %s: fabio's idle upstream connections carry no keep-alive timer: %.400q", cf.KA, out), nil)
+					}
+				default:
+					for _, m := range timers {
+						left, _ := strconv.Atoi(m[1])
+						c.R.Eval(1)
+						c.R.Count("keepalive_timers_seen_by_ss", 1)
+						if ka := int(cf.KA / time.Second); left > ka || left < ka-10 {
+							c.R.Violate("c19:keepalive-not-applied:binary", fmt.Sprintf("-proxy.keepalivetimeout %s: an idle upstream connection's keep-alive timer stands at %ds shortly after its last use", cf.KA, left), nil)
+							break
+						}
+					}
+				}
 			}
 			// all idle connections must be gone after the idle timeout
 			dl := tBurst.Add(cf.Idle + 1500*time.Millisecond)
